@@ -2,7 +2,7 @@
 see selftest/benign/<module>.NOTES.md).  No check of any property may fire on them."""
 ALL = ["C%02d" % i for i in range(1, 21)]
 # behaviour-preserving patches on which a check still raises an alarm (DESIGN 11.6): listed on every run, not failures
-LIMITS = {"w5", "v6", "u3", "q1"}
+LIMITS = {"w5", "v6", "u3", "q1", "t4"}
 CASES = [
     {"id": "benign-%s" % m, "props": ALL, "expect": "quiet", "patches": [("selftest/benign/%s.diff" % m, False)],
      "note": "independent benign refactoring of src/%s/mod.rs" % m}
@@ -56,4 +56,20 @@ CASES = [
                     ("r2", "common: Ord impls through helpers / a borrowed sort key, label codecs through a shared narrowing helper, named intermediates"),
                     ("r3", "util: extractors generated by a macro as `match`, explicit loop in the convert helper, builder macros rebinding self"),
                     ("r4", "sign / mac / encrypt: creating methods with locals and a spelled-out `?`, as_slice / as_deref views, matches! context guards"))
+] + [
+    {"id": "benign9-%s" % m, "props": ALL, "expect": "limit" if m in LIMITS else "quiet", "patches": [("selftest/benign/%s.diff" % m, False)], "note": what}
+    for m, what in (("t1", "header: guard clauses, collect, a local fn for the content-type checks, `match first()`, an `emit` closure, one push of an if/else value"),
+                    ("t2", "key: `.map(Self)`, fn-pointer comparator, try_for_each, `== KeyType::default()`, an add_entry helper, shared constructors"),
+                    ("t3", "cwt: `i64::try_from(i).map(..).map_err(CoseError::from)`, `Value::from`, constant patterns, generic push_claim(.., encode), const range"),
+                    ("t4", "sign / mac: slots taken by five pop()s in a let-else, swap_remove of the last index, `into_iter().rev()` + next(): documented limit"),
+                    ("t5", "encrypt / context: `match a.len()`, try_into destructuring, `<[Value; 3]>::try_from`, `pop()` + `map().transpose()`, split_off, extend"),
+                    ("t6", "common / util: extractor moved into the private trait as a provided method, new try_as_tagged extractor, write_value helper"),
+                    ("t7", "pedantic clean-ups across nine modules: Self, or-patterns, function paths for closures, assert! guards, as_deref, combinators"),
+                    ("t8", "additive API across ten modules: From / AsRef / FromIterator impls, bulk builder methods; macro and encoder re-expressed through them"))
+] + [
+    {"id": "benign9-good-%s" % m, "props": ALL, "expect": "quiet", "patches": [("selftest/benign/g9-%s.diff" % m, False)], "note": what}
+    for m, what in (("C01", "round-9 pair C01-o without its slip: try_as_array_of_len(range, want) in all eleven array decoders"),
+                    ("C11", "round-9 pair C11-o without its slip: Header::len(), is_empty() = len() == 0, with_capacity(len())"),
+                    ("C14", "round-9 pair C14-o without its slip: from_tagged_cbor_value / to_tagged_cbor_value defaults the byte-level ones delegate to"),
+                    ("C15", "round-9 pair C15-o without its slip: named int_to_i64 / int_to_u64 narrowing helpers"))
 ]
